@@ -255,8 +255,9 @@ fn history(a: &AG, g: &Graph, s: u64, m: usize, tr: &mut Tr, c: &mut Counts) -> 
                 }
                 Some((mut t, Ok((w, sc, fw, fsc)))) => {
                     c.widths += 1;
+                    // `nodes` (unchanged by the query) makes the event self-contained for --replay
                     tr.emit(json!({"k": "width", "res": "ok", "rankwidth": w, "score": sc, "fresh_rankwidth": fw, "fresh_score": fsc,
-                                   "cache": cache_json(&mut t), "tags": gtags(a)}));
+                                   "nodes": nodes_json(&t), "cache": cache_json(&mut t), "tags": gtags(a)}));
                     tree = t;
                 }
             }
@@ -367,6 +368,7 @@ fn anneal(a: &AG, g: &Graph, s: u64, p: Params, with_decomp: bool, tr: &mut Tr, 
         guarded(|| i2.rankwidth(&g2)).ok()
     };
     c.anneals += 1;
+    let init_nodes = nodes_json(an.init_decomp());
     let g3 = g.clone();
     let r = with_watchdog(60, move || {
         guarded(move || {
@@ -391,7 +393,7 @@ fn anneal(a: &AG, g: &Graph, s: u64, p: Params, with_decomp: bool, tr: &mut Tr, 
         Some(Ok((valid, nodes, cache, w, sc))) => {
             tr.emit(json!({"k": "anneal", "params": pj, "res": "ok", "valid": valid,
                            "init_width": init_width.map(|x| x as i64).unwrap_or(-1),
-                           "final_width": w, "final_score": sc, "nodes": nodes, "cache": cache, "tags": tags}));
+                           "final_width": w, "final_score": sc, "init_nodes": init_nodes, "nodes": nodes, "cache": cache, "tags": tags}));
         }
     }
 }
